@@ -308,4 +308,45 @@ example :
                                       star := [], dstar := [("zz", .json "0")] } := by
   decide
 
+/-- outside the excluded point the checked call IS the call: a payload without dependency-named keys never collides -/
+theorem basicCallChecked_eq (s : Sig) (payload : Option (List (String × V)))
+    (hdep : ∀ f, payload = some f → NoDepKeys s f) : basicCallChecked s payload = basicCall s payload := by
+  have hnone : depKeyCollision s payload = none := by
+    cases payload with
+    | none => rfl
+    | some fields =>
+      simp only [depKeyCollision]
+      split
+      · have : fields.find? (fun e => hasKey e.1 (depKwargs s)) = none := by
+          rw [List.find?_eq_none]
+          intro e he hk
+          rw [hasKey_iff] at hk
+          simp only [depKwargs, List.map_map, List.mem_map, List.mem_filter, Function.comp] at hk
+          obtain ⟨q, ⟨hq, hd⟩, hn⟩ := hk
+          exact hdep fields rfl e he q hq hd hn.symm
+        simp [this]
+      · rfl
+  unfold basicCallChecked basicCall
+  split
+  · rfl
+  · cases hc : basicConvert s payload with
+    | error e => rfl
+    | ok r => simp only [hnone]
+
+/-- `dep_key_collision_fails` — the point the main theorem excludes (`NoDepKeys`): a payload entry named like a dependency
+    parameter, sent to a `**kwargs` actor, never reaches the actor body — the call is rejected (repeated keyword), the
+    execution fails; so no invocation sees a dependency parameter replaced by payload data -/
+theorem dep_key_collision_fails (s : Sig) (fields : List (String × V)) (k : String)
+    (hc : depKeyCollision s (some fields) = some k) : ∃ e, basicCallChecked s (some fields) = .error e := by
+  unfold basicCallChecked
+  split
+  · exact ⟨_, rfl⟩
+  · cases hb : basicConvert s (some fields) with
+    | error e => exact ⟨e, rfl⟩
+    | ok r => exact ⟨.multiple k, by simp [hc]⟩
+
+-- the excluded point is inhabited
+example : depKeyCollision { posOrKw := [{ name := "x" }, { name := "d", isDep := true, hasDefault := true }], varKw := true }
+    (some [("x", .json "1"), ("d", .json "\"from-payload\"")]) = some "d" := by decide
+
 end Repid.C08
